@@ -48,16 +48,17 @@ class B(cc.SB):
         self.steps.append(st)
         return self
 
-    def caller(self, rnd, api=None, n=None):
+    def caller(self, rnd, api=None, n=None, typ=None):
         """start a caller (no expect): returns its id"""
         self.ncall += 1
         c = self.ncall
         if n is None:
             n = rnd.choice([0, 1, 5, 40, 300])
-        typ = REQ_TYPES[(c * 5 + rnd.randrange(3)) % len(REQ_TYPES)]
-        used = {r["typ"] for r in self.reqs.values()}
-        while typ in used:
-            typ = REQ_TYPES[(REQ_TYPES.index(typ) + 1) % len(REQ_TYPES)]
+        if typ is None:
+            typ = REQ_TYPES[(c * 5 + rnd.randrange(3)) % len(REQ_TYPES)]
+            used = {r["typ"] for r in self.reqs.values()}
+            while typ in used:
+                typ = REQ_TYPES[(REQ_TYPES.index(typ) + 1) % len(REQ_TYPES)]
         self.send(c, typ, n, self.tag(), expect=False, api=api)
         return c
 
@@ -110,7 +111,7 @@ NEG_PLANS = [
 ]
 
 
-def tail(b, rnd, good, plan=None, early_at=()):
+def tail(b, rnd, good, plan=None, early_at=(), neg_caller=None, more=True):
     """what follows the first message. early_at: positions at which an early caller is started
     ('neg0' = before the GetSupportedVersion reply, 'neg1' = before the SetProtocolVersion reply)."""
     early = list(b.early)
@@ -129,7 +130,9 @@ def tail(b, rnd, good, plan=None, early_at=()):
         outcome = plan[2]
         for k, (rtyp, pl) in enumerate(plan[1]):
             b.expect()                                  # GetSupportedVersion / SetProtocolVersion
-            if ("neg%d" % k) in early_at:
+            if ("neg%d" % k) in early_at and neg_caller is not None:
+                early.append(neg_caller())
+            elif ("neg%d" % k) in early_at:
                 early.append(b.caller(rnd, api=rnd.choice([None, "SendNoWait"] + (["SendFor"] if len(early_at) == 1 and not early else []))))
             b.expect_none()                             # nothing else may be pending while negotiating
             b.reply(b.nseen - 1, rtyp, pl=pl, ver=2)
@@ -147,8 +150,9 @@ def tail(b, rnd, good, plan=None, early_at=()):
         else:
             for e in early:
                 b.serve(e)
-            c = b.caller(rnd)
-            b.serve(c)
+            if more:
+                c = b.caller(rnd)
+                b.serve(c)
             b.op("drain")
         b.op("wait_connect")
     else:
@@ -428,6 +432,45 @@ def gen_scripts(seed, thorough, seed_round=0):
                                 b.wait(e)
                             b.probe()
                         add(b, "early-shutdown")
+    # J. the MESSAGE TYPE of an early request is a dimension of its own, for every exported entry point: types the client itself
+    #    produces or treats specially on the way out (KeepAliveAck, CloseConnection, GetSupportedVersion / SetProtocolVersion with a
+    #    payload of the caller's), types that normally travel the other way (KeepAlive, ROAccessReport, ReaderEventNotification,
+    #    CloseConnectionResponse, ErrorMessage), the custom type and unassigned numbers — header-only and with a payload. Whatever the
+    #    type, the request waits for the end of setup (and fails if setup fails); it must not even be REPORTED as sent before.
+    special = [(72, 0), (72, 4), (14, 0), (14, 6), (46, 3), (47, 4), (62, 0), (61, 9), (63, 0), (4, 8), (100, 8), (1023, 7), (1023, 0), (0, 0), (500, 2), (64, 0)]
+    n = 0
+    for api in (None, "SendFor", "SendNoWait"):
+        for typ, ln in special:
+            if api == "SendFor" and typ in (61, 62, 63):
+                continue            # (the runner's SendFor expects a reply of the request's own type; these are never taken for replies)
+            for pos in ("pre", "gate", "neg0"):
+                for fname, first, good in firsts[:2]:
+                    for version in (1, 2):
+                        if pos == "neg0" and (version == 1 or not good):
+                            continue
+                        n += 1
+                        plan = NEG_PLANS[n % 5] if (n % 4) else NEG_PLANS[5 + n % 6]
+                        keep = (typ, ln) in ((72, 0), (14, 0)) or (n + seed_round) % 4 == 0
+                        if not thorough and not keep:
+                            continue
+                        if pos == "neg0" and version == 2 and len(plan[1]) < 1:
+                            continue
+                        b = B("c08-early-type%d-n%d-%s-%s-%s-%s-v%d" % (typ, ln, api or "SendMessage", pos, fname, plan[0] if version == 2 else "noneg", version), version)
+                        mk = lambda: b.caller(rnd, api=api, n=ln, typ=typ)
+                        if pos == "pre":
+                            b.new_client()
+                            b.early.append(mk())
+                            b.wait(b.early[-1])
+                        b.start(no_first=True)
+                        b.probe()
+                        if pos == "gate":
+                            b.early.append(mk())
+                            b.wait(b.early[-1])
+                            b.probe()
+                        f = dict(first)
+                        b.add(op="peer_send", typ=f["typ"], id=f.get("id", 0), ver=version, pl=f.get("pl"))
+                        tail(b, rnd, good, plan=plan if version == 2 else None, early_at=["neg0"] if pos == "neg0" else [], neg_caller=mk, more=(typ != 14))
+                        add(b, "early-types")
     return out
 
 
@@ -653,7 +696,7 @@ def run_isolated(exe, scripts):
 def gen_timed(thorough):
     out = []
     T = 120
-    earlies = [["pre", "gate", "neg"], ["pre"], ["gate"], ["neg"], ["pre-shutdown"], ["neg-shutdown"]] + (
+    earlies = [["pre", "gate", "neg"], ["pre"], ["gate"], ["neg"], ["pre-shutdown"], ["neg-shutdown"], ["pre-ack"], ["neg-ack"]] + (
         [["pre", "neg"], ["gate", "neg"], [], ["pre-shutdown", "gate"], ["pre", "neg-shutdown"]] if thorough else [])
     for silent in ("gsv", "spv"):
         for ka in (True, False):
@@ -787,7 +830,8 @@ def judge_timed(rq, o):
         bad.append(("setup-succeeds-though-%s-unanswered" % rq["silent_on"],
                     "the reader never answered %s (client timeout %d ms, %s) but setup did not fail: Connect %s after %s ms, ready=%s closed=%s" % (
                         msg, rq["timeout_ms"], how, o.get("connect"), o.get("connect_ms"), o.get("ready"), o.get("closed"))))
-    foreign = [f for f in frames if f["typ"] not in NEG_TYPES]
+    # (a KeepAliveAck is the client's own business only if it answers one of the reader's keep-alives: ids 7001..)
+    foreign = [f for f in frames if f["typ"] not in NEG_TYPES or (f["typ"] == cc.T_ACK and not 7000 < f.get("id", 7001) < 8000)]
     if foreign:
         bad.append(("early-request-sent-though-%s-unanswered" % rq["silent_on"],
                     "the reader never answered %s (%s) yet the peer received %d request frame(s) of early callers (types %s); frames seen: %s" % (
